@@ -37,6 +37,13 @@ CLAIMED = {
  "C12": ("property-based testing (proptest) with a differential oracle against an all-versions twin parser, all 32 allowed-set configurations per case",
          "Generated chained buffers over {5,7,9,10} and unknown version numbers; for each of the 16 subsets of {5,7,9,10}, with and without extra numbers, every call's result must equal the all-allowing twin's leading elements up to the first filtered version, the caches must equal those of a parser fed only the bytes before it, and an allowed unsupported version must yield an UnknownVersion error.",
          "The twin starts from a copy of the four public cache maps; element offsets come from the C02 decomposition.", "DESIGN.md §4 C12"),
+
+ "C06": ("stateful property-based testing (proptest operation sequences over two parser instances) against a template-cache model, with partition and isolation re-execution",
+         "Generated operation sequences Feed(parser, buffer) over two parsers with independent allowed sets and a shared id pool: after every call the public cache maps of both parsers must equal the per-parser model (latest wins, never evicts, untouched by V5/V7, data, disallowed versions, truncated templates); every decodable data set must equal the reference decode under the model's template; every partition of each parser's stream into calls must give identical results and caches; a fresh parser fed only one parser's stream must end in the same state.",
+         "What a failing V9 packet may still teach: the complete template flowsets before the failing flowset. Cases whose data has no conformant reading under the receiving parser's own (older) definition are skipped and counted.", "DESIGN.md §4 C06"),
+ "C07": ("property-based testing (proptest histories with a withheld template, two parser instances, replay after late delivery) against reference decoder + cache model",
+         "Generated conformant histories in which every template record of one (protocol, id) is withheld while its data is still sent at arbitrary positions; the template is then given to another parser instance only, later to the first parser, and the same data bytes are replayed. A V9 packet with such data must be the final Error; an IPFIX message must contain no set of that id; caches must equal the model after every call; everything else must equal the reference decode; after delivery the replayed bytes must decode to the reference records.",
+         "For IPFIX both 'decoding stops at the unknown set' and 'only that set is skipped' count as omitting the set.", "DESIGN.md §4 C07"),
 }
 NOT_YET = {}
 
